@@ -1,4 +1,5 @@
 import LekkerVerif.Model.Modes
+import LekkerVerif.Core.ModesNet
 
 /-! # C13 — modes are independent: expand_mode replicates, connect_all pairs like modes -/
 
@@ -67,3 +68,32 @@ example : diagBlocks 2 3 (fun a b => a + 10 * b + 1) (expandIndex 2 1 1) (expand
 example : connectAllLinks "a" "b" ["TE", "TM"] ["TM", "m2"] = [(("a", "TM"), ("b", "TM"))] := by decide
 
 end Modes
+
+
+/-! ### network level: independent copies of the single-mode circuit -/
+
+/-- **a circuit assembled from mode-expanded blocks behaves as independent copies of the single-mode circuit**.
+`N` is any single-mode circuit with solution operator `T`; `N.expanded2 m₁ m₂` is the circuit the code builds from it
+for two modes: every block one part on the pins `(p, m₁)`, `(p, m₂)` with the block-diagonal matrix of `expand_mode`
+(`C13_expand`), like modes linked by `connect_all` (`C13_connect_all`), every exposed pin exposed per mode.  Whatever
+operator `Tm` solves that circuit has the single-mode coefficient between like modes and zero between different modes.
+(More modes: the same argument with one mode against the union of the others.) -/
+theorem C13_network_independent {F : Type} [Field F] {P M : Type} [DecidableEq P] [DecidableEq M]
+    (N : ANet P F) (cl : N.Closed) (hn : N.exposed.Nodup) (T : P → P → F) (h : N.SolvedBy T)
+    (m₁ m₂ : M) (hne : m₁ ≠ m₂) (Tm : P × M → P × M → F) (hT : (N.expanded2 m₁ m₂).SolvedBy Tm) :
+    ∀ p ∈ N.exposed, ∀ q ∈ N.exposed,
+      Tm (p, m₁) (q, m₁) = T p q ∧ Tm (p, m₂) (q, m₂) = T p q ∧ Tm (p, m₁) (q, m₂) = 0 ∧ Tm (q, m₂) (p, m₁) = 0 :=
+  ANet.expanded2_independent N cl hn T h m₁ m₂ hne Tm hT
+
+/-- … and such an operator exists whenever the single-mode circuit has one (the two-mode circuit is solvable) -/
+theorem C13_network_solved {F : Type} [Field F] {P M : Type} [DecidableEq P] [DecidableEq M]
+    (N : ANet P F) (cl : N.Closed) (T : P → P → F) (h : N.SolvedBy T) (m₁ m₂ : M) (hne : m₁ ≠ m₂)
+    [∀ x, Decidable ((N.atMode m₁).pinSet x)] :
+    (N.expanded2 m₁ m₂).SolvedBy (ANet.sumOp (N.atMode m₁) (fun x y => T x.1 y.1) (fun x y => T x.1 y.1)) := by
+  have hu := ANet.union_solvedBy (ANet.atMode_apart N cl m₁ m₂ hne) _ _ (ANet.atMode_solvedBy N m₁ T h) (ANet.atMode_solvedBy N m₂ T h)
+  constructor
+  · intro a b hs e he
+    exact hu.1 a b ((ANet.expanded2_sol N m₁ m₂ hne a b).1 hs) e he
+  · intro v
+    obtain ⟨a, b, hs, hv⟩ := hu.2 v
+    exact ⟨a, b, (ANet.expanded2_sol N m₁ m₂ hne a b).2 hs, hv⟩
